@@ -98,7 +98,7 @@ def run_case(fn, req, case):
     out = {"args": {k: jsonable(v) for k, v in old.items()}}
     env0 = ceval.make_env(args, old, None, req.get("spec_src"), req.get("consts"))
     try:
-        pre = [(c, ceval.eval_clause(c, env0)) for c in req.get("requires", [])]
+        pre = [(c, ceval.eval_clause(c, env0)) for c in req.get("requires", [])]  # preconditions: exact
     except Exception as e:  # an input on which the precondition cannot even be evaluated is invalid
         out["status"] = "invalid"
         out["why"] = f"requires raised {type(e).__name__}: {e}"
@@ -123,7 +123,7 @@ def run_case(fn, req, case):
     failed = []
     for name, expr in req.get("ensures", []):
         try:
-            ok = ceval.eval_clause(expr, env)
+            ok = ceval.eval_clause(expr, env, approx=req.get("mode") == "real")
         except Exception as e:
             ok = False
             name = f"{name} (evaluation raised {type(e).__name__}: {e})"
